@@ -32,6 +32,31 @@ func captureWrites(ev *eval.Evaluator) *[]eval.Str {
 		}
 		return eval.Tuple{eval.K(0), eval.Nil{}}
 	}
+	for _, name := range []string{"fmt.Fprintln", "fmt.Fprint"} {
+		nl := name == "fmt.Fprintln"
+		ev.Extern[name] = func(ev *eval.Evaluator, pos token.Pos, recv eval.Value, args []eval.Value) eval.Value {
+			if o, ok := unref(args[0]).(eval.Opaque); ok && strings.Contains(o.Why, "Stderr") {
+				return eval.Tuple{eval.K(0), eval.Nil{}}
+			}
+			line := eval.S("")
+			for i, a := range args[1:] {
+				if i > 0 && nl {
+					line = line.Concat(eval.S(" "))
+				}
+				switch x := a.(type) {
+				case eval.Str:
+					line = line.Concat(x)
+				default:
+					line = line.Concat(eval.SSym(eval.Show(x)))
+				}
+			}
+			if nl {
+				line = line.Concat(eval.S("\n"))
+			}
+			out = append(out, line)
+			return eval.Tuple{eval.K(0), eval.Nil{}}
+		}
+	}
 	return &out
 }
 
